@@ -235,5 +235,7 @@ func cleanupEmptySegment(new, old *segment) error {
 	old.Lock()
 	old.replaced = true
 	old.Unlock()
-	return old.Delete()
+	err := old.Delete()
+	verifCrashPoint("compact.after_delete_old")
+	return err
 }
